@@ -35,3 +35,6 @@ def run(ctx):
     S.r02_2_attrset(ctx, 'R04.8')
     S.r04_9_duplicate_keys(ctx)
     S.r01_3_recursion(ctx)
+    from . import round3 as R3
+    R3.r04_10_key_test_table(ctx)
+    R3.r11_7_per_call_loader(ctx, 'R04.11')
